@@ -8,6 +8,12 @@ package snowflake_server
 //
 //   carrierlayer run <ops>   ops: n | r<i>:x<hex> | c<i> | w:x<cid>:x<hex> | s<i> (ignored: scheduling) | f (ignored)
 //   -> up=<x<cid>:x<pkt>,...|-> k<i>=<open|closed>:x<downstream bytes> ...
+//   carrierlayer trun <timeout ms> <ops>   the same with the client map's retention: the QueuePacketConn is made with
+//        that timeout (60000 = the server's own constant clientMapTimeout); ops carry the model's clock readings
+//        (r<i>:x<hex>:<now>, w:x<cid>:x<hex>:<now>, s<i>:<now>: ignored here, real time flows); v<now> = the sweeper ran
+//        without consequence (no-op here); V<now> = an idle gap of more than timeout + sweep period (= 1.5 timeouts):
+//        the driver really waits that long, after which every record has expired whatever the scheduler did.
+//   (moving sessions through the real Listen/Accept path: the black-box driver harness/overlay/zz_verif/c05bb)
 
 import (
 	"bufio"
@@ -43,8 +49,8 @@ func c05hex(s string) []byte {
 	return b
 }
 
-func c05Run(ops string) string {
-	pconn := turbotunnel.NewQueuePacketConn(dummyAddrC05{}, time.Hour)
+func c05Run(ops string, timeout time.Duration) string {
+	pconn := turbotunnel.NewQueuePacketConn(dummyAddrC05{}, timeout)
 	defer pconn.Close()
 	srv := httptest.NewServer(&httpHandler{pconn: pconn})
 	defer srv.Close()
@@ -115,6 +121,22 @@ func c05Run(ops string) string {
 						}
 						carriers[i].mu.Unlock()
 					}
+				} else if e[0] == 'S' {
+					// S<i>+<j>+...=<n>: the carriers i, j, ... together have been written n downstream bytes
+					f := strings.SplitN(e[1:], "=", 2)
+					n, _ := strconv.Atoi(f[1])
+					tot := 0
+					for _, is := range strings.Split(f[0], "+") {
+						i, _ := strconv.Atoi(is)
+						if i < len(carriers) {
+							carriers[i].mu.Lock()
+							tot += len(carriers[i].down)
+							carriers[i].mu.Unlock()
+						}
+					}
+					if tot < n {
+						ok = false
+					}
 				} else if e[0] == 'd' {
 					f := strings.SplitN(e[1:], "=", 2)
 					i, _ := strconv.Atoi(f[0])
@@ -165,9 +187,12 @@ func c05Run(ops string) string {
 				}
 			}()
 		case op[0] == 'r':
-			f := strings.SplitN(op[1:], ":", 2)
+			f := strings.Split(op[1:], ":")
 			i, _ := strconv.Atoi(f[0])
 			carriers[i].ws.WriteMessage(websocket.BinaryMessage, c05hex(f[1]))
+		case op[0] == 'V':
+			// more than retention + sweep period with nothing touching the client map
+			time.Sleep(timeout + timeout/2 + timeout/4 + 50*time.Millisecond)
 		case op[0] == 'c':
 			i, _ := strconv.Atoi(op[1:])
 			carriers[i].ws.Close()
@@ -217,6 +242,7 @@ func c05Run(ops string) string {
 	return strings.Join(out, " ")
 }
 
+
 type dummyAddrC05 struct{}
 
 func (dummyAddrC05) Network() string { return "dummy" }
@@ -251,7 +277,23 @@ func TestVerifC05Driver(t *testing.T) {
 				}
 			}()
 			a := strings.Split(line, " ")
-			res[idx] = c05Run(a[2])
+			switch {
+			case len(a) == 3 && a[1] == "run":
+				res[idx] = c05Run(a[2], time.Hour)
+			case len(a) == 4 && a[1] == "trun":
+				ms, err := strconv.Atoi(a[2])
+				if err != nil {
+					res[idx] = "!badcase"
+					return
+				}
+				tmo := time.Duration(ms) * time.Millisecond
+				if ms == 60000 {
+					tmo = clientMapTimeout // the server's own retention
+				}
+				res[idx] = c05Run(a[3], tmo)
+			default:
+				res[idx] = "!badcase"
+			}
 		}()
 	}
 	wg.Wait()
